@@ -44,18 +44,18 @@ Print Assumptions C16_py_reader_refines.
 Theorem C16_py_truncated : forall bufsize ops data vs p q, (0 < bufsize)%nat -> Forall (pop_ok bufsize) ops ->
   paexact data ops = Some vs -> data = p ++ q -> q <> [] ->
   exists k, (k <= length vs)%nat /\
-            map pnorm (prun bufsize (pin_init p) ops) = map POk (firstn k vs) ++ [PEof].
+            map pnorm (prun bufsize (pin_init p) ops) = map PyOk (firstn k vs) ++ [PyEof].
 Proof. exact py_truncated. Qed.
 Print Assumptions C16_py_truncated.
 
 Theorem C16_py_complete : forall bufsize ops data vs, (0 < bufsize)%nat -> Forall (pop_ok bufsize) ops ->
-  paexact data ops = Some vs -> prun bufsize (pin_init data) ops = map POk vs.
+  paexact data ops = Some vs -> prun bufsize (pin_init data) ops = map PyOk vs.
 Proof. exact py_complete. Qed.
 Print Assumptions C16_py_complete.
 
 (* no stale byte of the bytearray is ever returned, the varint loop terminates *)
 Theorem C16_py_outcomes : forall bufsize input ops, (0 < bufsize)%nat -> Forall (pop_ok bufsize) ops ->
-  Forall (fun r => match r with POk _ | PEof | PFault BufferErr => True | _ => False end)
+  Forall (fun r => match r with PyOk _ | PyEof | PyFault BufferErr => True | _ => False end)
          (prun bufsize (pin_init input) ops).
 Proof. exact py_reader_outcomes. Qed.
 Print Assumptions C16_py_outcomes.
@@ -66,7 +66,7 @@ Example C16_py_hyp_sat :
   = Some [VNum 5; VNum 300; VNum 1; VBytes [9; 8; 7]].
 Proof. vm_compute. reflexivity. Qed.
 Example C16_py_buffer_error_witness :
-  prun 10 (pin_init [1; 2; 3; 4; 5; 6; 7]) [PByte; PByte; PFixed 8] = [POk (VNum 1); POk (VNum 2); PFault BufferErr].
+  prun 10 (pin_init [1; 2; 3; 4; 5; 6; 7]) [PByte; PByte; PFixed 8] = [PyOk (VNum 1); PyOk (VNum 2); PyFault BufferErr].
 Proof. vm_compute. reflexivity. Qed.
 
 (* the constants of the model (varint byte budgets, magic bytes, format version, nesting limit, default
